@@ -77,6 +77,13 @@ func genCacheCase(t *rapid.T) CacheCase {
 			c.Init[f] = "0"
 		}
 	}
+	// with probability 1/4 one task also depends on a path that is a symbolic link to a file
+	// (literally, and through every *.txt glob): editing the target is editing that dependency
+	if rapid.IntRange(0, 3).Draw(t, "with_link") == 3 {
+		c.Links = map[string]string{"ln.txt": rapid.SampledFrom([]string{"f2.txt", "sub/f3.txt", "g1.c"}).Draw(t, "link_target")}
+		k := rapid.IntRange(0, n-1).Draw(t, "link_task")
+		c.Tasks[k].Files = append(c.Tasks[k].Files, "ln.txt")
+	}
 	names := taskNames[:n]
 	nsteps := rapid.IntRange(2, 14).Draw(t, "nsteps")
 	if ev.Thorough() {
@@ -148,6 +155,9 @@ func classifyCase(s *ev.Shard, c CacheCase) {
 		if len(t.Writes) > 0 {
 			s.Class("prog_task_rewrites_other_tasks_input")
 		}
+	}
+	if len(c.Links) > 0 {
+		s.Class("prog_dependency_is_symlink")
 	}
 	for _, n := range lits {
 		if n > 1 {
@@ -353,6 +363,12 @@ func templateCases() []CacheCase {
 			out = append(out, CacheCase{Tasks: shift, Init: map[string]string{pair[0]: pair[1], "b.txt": "0"}, Steps: []Step{
 				run([]string{"A", "B"}, false, nil), {Op: "delete", File: pair[0]}, {Op: "write", File: pair[2], Content: pair[3]}, fin, fin}})
 		}
+	}
+	// a dependency that is a symbolic link: the target is edited, not the link
+	linked := []TaskSpec{{Name: "A", Files: []string{"ln.txt"}, NCmds: 1}, {Name: "B", Globs: []string{"l*.txt"}, NCmds: 1}}
+	for _, fin := range final {
+		out = append(out, CacheCase{Tasks: linked, Init: map[string]string{"a.txt": "0", "b.txt": "0"}, Links: map[string]string{"ln.txt": "a.txt"}, Steps: []Step{
+			run([]string{"A", "B"}, false, nil), {Op: "write", File: "a.txt", Content: "1"}, fin, fin, {Op: "write", File: "a.txt", Content: "0"}, fin}})
 	}
 	return out
 }
